@@ -58,7 +58,7 @@ REQUIRED = {
 PLURAL = {"from_bus": "from_buses", "to_bus": "to_buses", "hv_bus": "hv_buses", "mv_bus": "mv_buses", "lv_bus": "lv_buses",
           "bus": "buses", "element": "elements"}
 BUSARGS = ("from_bus", "to_bus", "hv_bus", "mv_bus", "lv_bus", "bus")
-SPECIAL = {"std_type": lambda r: "vt", "et": None, "tap_side": lambda r: "hv", "tap_changer_type": lambda r: "Ratio",
+SPECIAL = {"std_type": lambda r: "vt",      # line_std: row 1 uses a second type "at" (see observe) "et": None, "tap_side": lambda r: "hv", "tap_changer_type": lambda r: "Ratio",
            "vector_group": lambda r: "Dyn", "zone": lambda r: "z%d" % r, "power_type": lambda r: "q",
            "tap_neutral": lambda r: 0, "tap_min": lambda r: -3 - r, "tap_max": lambda r: 3 + r, "tap_pos": lambda r: 1 + r,
            "parallel": lambda r: 2 + r, "step": lambda r: 1 + r, "max_step": lambda r: 3 + r,
@@ -163,6 +163,9 @@ def observe(cfg):
     base = copy.deepcopy(base_net())
     lt, tt, t3 = std_types(shape)
     pp.create_std_type(base, lt, "vt", element="line")
+    # a second line type whose name sorts BEFORE "vt" but is used by the second row: a list of type names in
+    # non-alphabetical order (create_lines accepts one name per line)
+    pp.create_std_type(base, {k: (v + 100.0 if isinstance(v, float) else v) for k, v in lt.items()}, "at", element="line")
     pp.create_std_type(base, tt, "vt", element="trafo")
     pp.create_std_type(base, t3, "vt", element="trafo3w")
     if pair in ("poly_cost", "pwl_cost") and err == "dup_cost_net":
@@ -186,6 +189,8 @@ def observe(cfg):
                 kw[n] = "l" if pair == "switch" else "gen"
             else:
                 kw[n] = arg_value(pair, n, r, k)
+        if pair == "line_std" and r == 1:
+            kw["std_type"] = "at"
         rows.append(kw)
     idx = [7, 8]
     if err == "missing_bus":
@@ -228,7 +233,7 @@ def observe(cfg):
         if n == "et":
             bkw[n] = vals[0]
         elif n == "std_type":
-            bkw[n] = vals[0]
+            bkw[n] = vals[0] if vals[0] == vals[1] else vals
         else:
             bkw[PLURAL.get(n, n)] = vals
     try:
